@@ -1,4 +1,18 @@
 //go:build verif
 
-// Package cache holds world harnesses (see DESIGN.md §4).
+// Package cache holds the world harness of property C08 ("source-side caches are
+// transparent: same data, bounded reuse, no cached errors"; see DESIGN.md §4).
+//
+//	model.go  static chain (6 blocks x 2 txs x 2 logs, two addresses x two signatures), the
+//	          filters / data plans, the operation alphabet, and the UNCACHED REFERENCE
+//	          comparison of one Get result against the chain model
+//	exec.go   one execution: real jrpc2.Client inside a world, 2-3 caller threads, the head
+//	          poller, announcements + ticks; records the total order of invocations,
+//	          returns and node exchanges
+//	judge.go  the oracle over that history (data, errors, provenance of cached reads,
+//	          bounded reuse, announced head pairs) and the counting rule
+//	c08.go    registration, job lists, sharding by schedule sub-tree, replay, self-test of
+//	          the counting rule against the repository's own sequential tests
+//
+// Shared-package addition: explore/c08_subtree.go (Expand / ExploreFrom / NewRun).
 package cache
